@@ -244,8 +244,8 @@ IllRoot(I) == IF IllAt(I) = "rpc" THEN "#m1:eh/input" ELSE "/m1:eh"
 IllHost(I, m) ==
   IF I.ill = {} \/ m # "m1" THEN {} ELSE
   LET R == IllRoot(I)  n(p, t, d) == Node(p, t, "", d, {}) IN
-  (IF IllAt(I) = "rpc" THEN {} ELSE {n(R, "c", "")})
-  \cup {n(R \o "/m1:ec", "c", ""), n(R \o "/m1:ec/m1:el", "l", "d0"), n(R \o "/m1:ec/m1:em", "l", ""), n(R \o "/m1:ell", "leaf-list", ""),
+  {n(R, IF IllAt(I) = "rpc" THEN "input" ELSE "c", ""),      \* (the input of the rpc: below "#", not part of the compared tree)
+   n(R \o "/m1:ec", "c", ""), n(R \o "/m1:ec/m1:el", "l", "d0"), n(R \o "/m1:ec/m1:em", "l", ""), n(R \o "/m1:ell", "leaf-list", ""),
         n(R \o "/m1:eq", "list", ""), n(R \o "/m1:eq/m1:id", "l", ""), n(R \o "/m1:eq/m1:ev", "l", ""), n(R \o "/m1:ex", "l", ""), n(R \o "/m1:ex2", "l", ""),
         n("/m1:eu", "list", ""), n("/m1:eu/m1:id", "l", ""), n("/m1:eu/m1:ev", "l", ""), n("/m1:eu/m1:en", "c", ""), n("/m1:eu/m1:en/m1:y", "l", "")}
 \* the data node a target is / below which an added leaf lands (choice and case are not data nodes)
